@@ -157,6 +157,22 @@ def fmt_arg(a):
     return ['?', type(a).__name__]
 
 
+_SECOND = []
+
+
+def second_server():
+    """A second, non-default server whose client id is 2 (as a login reply would assign it)."""
+    if not _SECOND:
+        from sc3.base.netaddr import NetAddr
+        from sc3.synth.server import Server, ServerOptions
+        opt = ServerOptions()
+        opt.max_logins = 4
+        s2 = Server('second', NetAddr('127.0.0.1', 57111), opt)
+        s2._set_client_id(2)
+        _SECOND.append(s2)
+    return _SECOND[0]
+
+
 def run_case(case, errs):
     from sc3.base.main import main
     from sc3.base.stream import routine
@@ -165,6 +181,16 @@ def run_case(case, errs):
     from sc3.synth.synthdesc import SynthDescLib
     main.reset()
     Server.default.latency = num(case['lat'])
+    s2 = None
+    if case.get('server2'):
+        s2 = second_server()
+        s2.latency = num(case['lat'])
+
+    def evdict(kvs):
+        d = {k: val(v) for k, v in kvs}
+        if s2 is not None:
+            d['server'] = s2             # played on the second server: its default group is the target
+        return d
     for d in case['defs']:
         make_def(d['name'], d['controls'])
         if d.get('keep_gate'):
@@ -182,10 +208,12 @@ def run_case(case, errs):
                 from sc3.base.play import play as _play
                 kw = {k: val(v) for k, v in prog[2] if k in prog[3]}
                 d = {k: (1 if k in prog[3] else val(v)) for k, v in prog[2]}
+                if s2 is not None:
+                    d['server'] = s2
                 _play(d, **kw)
                 return
             if prog[0] in ('event', 'replay', 'redef'):
-                obj = event({k: val(v) for k, v in prog[2]})
+                obj = event(evdict(prog[2]))
             else:
                 obj = epat(prog[2])
         except Exception as e:           # not playable at all
@@ -207,11 +235,14 @@ def run_case(case, errs):
             make_def(d['name'], d['controls'])
             if d.get('keep_gate'):
                 SynthDescLib.default.at(d['name']).keep_gate = True
-            event({k: val(v) for k, v in prog[2]}).play()
+            event(evdict(prog[2])).play()
         if prog[0] == 'replay':
             # the same event OBJECT (or a copy of the already played object) played again later
-            for dt, mode in prog[3]:
+            for pl in prog[3]:
+                dt, mode = pl[0], pl[1]
                 yield num(dt)
+                if len(pl) > 2:                   # a key of the event object is changed between two plays
+                    obj[pl[2][0]] = val(pl[2][1])
                 (obj if mode == 'same' else obj.copy()).play()
 
     r = routine(body)
@@ -224,6 +255,11 @@ def run_case(case, errs):
         for msg in entry[1:]:
             if msg[0] == '/c_set':
                 end = repr(float(t) - 1.0)        # time of the last wake-up (tail = 1.0)
+            if msg[0] == '/s_new' and s2 is not None:
+                # target group relative to the event's server: its default group reads 1, anything else is foreign
+                g2 = s2.default_group.node_id
+                msg = list(msg)
+                msg[4] = 1 if msg[4] == g2 else msg[4] + 1000000
             if msg[0] in ('/s_new', '/n_set', '/n_free'):
                 out.append([repr(float(t)), msg[0]] + [fmt_arg(a) for a in msg[1:]])
     if prog[0] == 'restart':
